@@ -561,6 +561,16 @@ for fn, tier in (("c13_v_ref_count_action_without_table", "quick"), ("c13_v_inde
                  900, 4, unwind=12, stubs=ENV + VPC, replay="solver-trace-only"))
 PROPS["C13"]["functions"] += ["HashColumn::validate_plan (dispatch: unknown / too old / missing tables are Corruption, never a panic)"]
 
+# ---- C08.A4: commit_changes on a multitree column (reports the known finding of DESIGN 10.9 on the unchanged tree)
+A4C = ["stub: HashColumn::claim_tree_values -> counts the claim, returns a two-byte root (C10 decides the real function)", "stub: column::hash_key -> first key byte", "stub: DbInner::get -> no such root",
+       "stub: DbInner::commit_raw -> counts the call (C08.A2 decides the real function)"]
+add("C08", H("db", "c08_a4_refused_transaction_keeps_no_claim", "thorough", ["C08.A4", "C08.A4r", "C08.A4q"], "append_only option; transaction [InsertTree(empty node), Set] on a multitree column (operation kinds are not constants for symbolic execution: every arm of the loop is explored)",
+             "struct-literal DbInner with one multitree column; one commit_changes call; unwind 3 + unwindset memcmp.0:34", 2700, 28, variant="mapsub", unwind=3, cbmc_args=["--unwindset", "memcmp.0:34"],
+             stubs=ENV + MAPSUB + A4C, replay="solver-trace-only"))
+_ms("C08")
+PROPS["C08"]["functions"] += ["DbInner::commit_changes (multitree arm: side effects taken before the transaction is known to be acceptable)"]
+PROPS["C08"]["outside"] = PROPS["C08"]["outside"].replace("side effects taken before commit_raw is reached by commit_changes on multitree columns (claimed node slots, queued-dereference counters); ", "the queued-dereference counter of a refused DereferenceTree (the claimed-slot half of the same defect is the known finding C08.A4); ")
+
 # ---- memory classes from measurement: the registered class is an upper bound chosen before the harness was ever run; where a
 # run on the unchanged tree recorded the peak resident memory of the whole process group (lib/measured_rss_mb.json, refreshed
 # by lib/calibrate.py from the evidence files), the admission class is 1.6 x that peak + 1 GB (never above the registered
